@@ -83,6 +83,9 @@ class SV:
     # ---- arithmetic
     def _bin(self, o, f, swap=False):
         if isinstance(o, np.ndarray):
+            g = np.frompyfunc(lambda x: self._bin(x, f, swap), 1, 1)
+            return SymNd(np.asarray(g(o), dtype=object))
+        if isinstance(o, SSparse):
             return NotImplemented
         b = _num(o)
         if isinstance(b, _Inf) or isinstance(self.v, _Inf):
@@ -187,7 +190,8 @@ class SV:
     # ---- comparisons
     def _cmp(self, o, f):
         if isinstance(o, np.ndarray):
-            return NotImplemented
+            g = np.frompyfunc(lambda x: self._cmp(x, f), 1, 1)
+            return SymNd(np.asarray(g(o), dtype=object))
         b = _num(o)
         a = self.v
         if isinstance(b, _Inf) or isinstance(a, _Inf):
@@ -246,16 +250,23 @@ class SV:
 
 
 def _div(a, b):
-    zero = sx.eq(b.val if isinstance(b, NF) else b, 0)
-    if zero is True:
-        raise ZeroDivisionError("division by zero (symbolic engine)")
-    if zero is not False:
-        # python/numpy float division by zero does not raise for arrays (inf/nan); we follow the
-        # path where the divisor is non-zero and record the zero case as a separate event path
-        ex = current()
-        if ex is not None:
-            ex.note_divisor(b)
-    return sx.div(a, b)
+    """float division: a symbolic divisor that may be zero yields a NaN-flagged value (0/0 = nan, x/0 = +-inf are
+    both represented by the flag; merged, no fork)"""
+    bz = sx.eq(b.val if isinstance(b, NF) else b, 0)
+    if isinstance(b, NF):
+        bz = and_(not_(b.nan), bz)
+    if bz is True:
+        return NF(True, 0)
+    if bz is False:
+        return sx.div(a, b)
+    ex = current()
+    if ex is not None:
+        if not ex._feasible(bz):
+            return sx.div(a, b)
+        ex.note_divisor(b)
+    a2, b2 = sx.to_nf(a), sx.to_nf(b)
+    safe = ite(bz, 1, b2.val)
+    return NF(or_(a2.nan, b2.nan, bz), sx.div(a2.val, safe))
 
 
 def _cmp_inf(a, b, f):
